@@ -11,24 +11,20 @@ Three parties see every op line:
     and demands: every call returns; the pages returned in one pass are exactly the matching pages, each once, in
     ascending / descending (page, subpage) order from the start position wrapping once, then NOT_FOUND; the
     highlighted cells are a real occurrence; forward passes report every non-overlapping occurrence.
-Deviations with a known cause (known_findings.C17.json) are classified by a witness condition on the cache
-statistics / the text; anything else is a VIOLATION.
+Three deviations are still classified as known findings (known_findings.C17.json), each by a witness condition: C17-D2
+in its 16 bit form (a page number with >= 65536 cached pages, n_subpages wrapped) and C17-D6 (regular expressions only:
+ure_exec forgets an accepting state it has passed when the attempt dies later, "(ab)+" finds nothing in "ababa "), and C17-D7 (a pass that starts at a page with sub-code 0x3F7F: search.c puts
+the forward stop position at (P, 0), the walk starts at the most recently used subpage of P; subpages of P are not
+searched in that pass).
+The findings D1 (ure restart), D3 (sub-page 0 in the
+statistics), D4 (start page skipped), D5 (0x3F7F wildcard) and D2 at 256 pages are repaired in /repo; the oracle has
+no excuse for them any more: if one of those behaviours returns it is a VIOLATION.
 """
 import json, os, re, sys, hashlib
 sys.path.insert(0, os.path.join(os.path.dirname(os.path.abspath(__file__)), "..", "lib"))
 import verif
 import search_util as S
 from search_util import Put, ANY
-
-# known_findings.C17.json is merged into the shared list (lib/verif.py only reads known_findings.json)
-_orig_load_known = verif.load_known
-def _load_known():
-    k = _orig_load_known()
-    p = os.path.join(verif.VERIF, "known_findings.C17.json")
-    if os.path.exists(p):
-        k = dict(k); k["findings"] = list(k.get("findings", [])) + json.load(open(p)).get("findings", [])
-    return k
-verif.load_known = _load_known
 
 BLANK = [(0x20, 0)] * 41
 
@@ -61,7 +57,7 @@ def compile_pat(pat, casefold, regexp):
     except re.error:
         return None
 
-# --- emulation of ure_exec, used ONLY to classify a deviation as the known finding D1, never to accept anything.
+# --- emulation of ure_exec, used ONLY to classify a deviation as the known finding C17-D6, never to accept anything.
 # Regular expressions (the generator's subset: literals, escapes, '.', [classes], groups, | * + ?) are run by
 # Brzozowski derivatives: "the DFA has a transition on c" <=> the derivative is not the empty language.
 NULL, EPS = ("null",), ("eps",)
@@ -144,23 +140,30 @@ def r_parse(pat, literal, casefold):
         return lit(ch)
     return alt()
 
-def quirk_find(rq, casefold, text, pos=0):
-    """what ure_exec does today (for a literal: ZvbiModel/Search/Matcher.lean quirkLit): after a mismatch in a
-    non-accepting state the DFA restarts with the NEXT character; nothing is re-read"""
-    st, ms, me = rq, None, None
-    i = pos
-    while i < len(text):
+def ure_now(rq, casefold, text, pos=0):
+    """what ure_exec does since 8b7ac93: on a mismatch in a non-accepting state the DFA restarts one character after
+    the START of the failed attempt - but an accepting state the attempt had passed is forgotten (C17-D6).
+    -> (span | None, lost) with lost = some abandoned attempt had passed an accepting state"""
+    n, i = len(text), pos
+    st, ms, me, passed, lost = rq, None, None, False, False
+    while i < n:
         c = text[i].lower() if casefold else text[i]
         d = r_deriv(st, c)
         if d != NULL:
             if ms is None: ms = i
             me, st = i + 1, d
+            i += 1
+            if r_nullable(st): passed = True
+            if i == n:
+                if r_nullable(st): return (ms, me), lost
+                return None, lost or passed
         elif r_nullable(st):
-            return (ms, me) if ms is not None else None
+            return ((ms, me) if ms is not None else None), lost
         else:
-            st, ms, me = rq, None, None
-        i += 1
-    return (ms, me) if (ms is not None and r_nullable(st)) else None
+            lost = lost or passed
+            i = ms + 1 if ms is not None else i + 1
+            st, ms, me, passed = rq, None, None, False
+    return None, lost
 
 def prev_pos(pgno, subno):
     """vbi_search_new documentation: (pgno, subno) is the last page a backward search visits, so the backward pass
@@ -193,8 +196,9 @@ class Pass:
     def __init__(self, d, start, fresh):
         self.dir, self.start, self.fresh = d, start, fresh
         self.hits, self.mutated, self.snapshot = [], False, None
+        self.alt_start = None
 
-KNOWN_CAUSES = ("ure-restart", "nsub-wrap", "stats-exclude", "start-page-skipped", "any-subno-wildcard")
+KNOWN_CAUSES = ("nsub-wrap", "ure-accept-lost", "turn-on-3f7f")
 
 class Judge:
     """runs over one case; `problem` = first unexplained discrepancy, `known` = first explained one"""
@@ -229,21 +233,52 @@ class Judge:
         return res
 
     def classify_miss(self, k, ps, dump, spans):
+        """the excuses left: C17-D2 in its 16 bit form (>= 65536 cached pages under this page number, n_subpages
+        wrapped) and C17-D6 (ure_exec drops a match whose attempt went on past an accepting state and died): the
+        emulation of today's ure_exec finds nothing on this page's text AND it abandoned an attempt that had passed
+        an accepting state.  Nothing else: a miss caused by the statistics window, the start position, the 0x3F7F
+        wildcard or the restart rule of ure_exec (all repaired) is a violation."""
         p, s = k
-        ns, mn, mx = dump.stat.get(p, (0, 0, 0))
-        if mx == ANY: return "any-subno-wildcard"
         subs = [e[0] for e in dump.chain.get(p, [])]
-        if ns == 0 and len(subs) >= 256: return "nsub-wrap"           # only a wrapped 8-bit counter explains a zero count
-        if s > mx or ns == 0: return None                             # subno_max always covers the cached pages (stats_invariant)
-        if s < mn: return "stats-exclude"                             # D3: subno_min was raised by the "0 = none yet" rule
-        sp, ss = ps.start
-        if p == sp:
-            nxt = ss + ps.dir
-            if ((ps.dir > 0 and s > ss) or (ps.dir < 0 and s < ss)) and not (mn <= nxt <= mx): return "start-page-skipped"
+        if len(subs) >= 65536: return "nsub-wrap"
+        # C17-D7: the pass starts at a page P.3F7F (direction changed there / stop position left there): search.c and
+        # the start look-up of the walk take that sub-code for VBI_ANY_SUBNO - the forward stop position becomes
+        # (P, 0) and cuts the other subpages of P off the pass; the walk starts at the most recently used subpage of
+        # P instead of P.3F7F.  Only subpages of P itself can be lost that way.
+        if ps.start[1] == ANY and p == ps.start[0]: return "turn-on-3f7f"
         if self.srch["rq"] is not None:
             f, h = dump.pages()[k]
-            if quirk_find(self.srch["rq"], self.srch["casefold"], haystack(self.tab[h])[0]) is None: return "ure-restart"
+            span, lost = ure_now(self.srch["rq"], self.srch["casefold"], haystack(self.tab[h])[0])
+            if span is None and lost: return "ure-accept-lost"
         return None
+
+    @staticmethod
+    def expected(keys, start, d):
+        if d > 0: return [k for k in keys if k >= start] + [k for k in keys if k < start]
+        return [k for k in reversed(keys) if k <= start] + [k for k in reversed(keys) if k > start]
+
+    @staticmethod
+    def compare(ps, start, exp, act, complete, optional):
+        """pages due in the pass `exp` against pages returned `act` -> [(kind, key, text)]"""
+        out = []
+        i = j = 0
+        while i < len(exp) and j < len(act):
+            if exp[i] == act[j]: i += 1; j += 1
+            elif exp[i] in optional and i == 0: i += 1
+            elif exp[i] not in act[j:]:
+                out.append(("missed-page", exp[i], "page %x.%x matches but was not returned (pass dir %+d from %x.%x)" % (exp[i] + (ps.dir,) + tuple(start))))
+                i += 1
+            else:
+                out.append(("wrong-order", None, "page %x.%x returned where %x.%x was due (pass dir %+d from %x.%x)" % (act[j] + exp[i] + (ps.dir,) + tuple(start))))
+                return out
+        if j < len(act):
+            out.append(("extra-page", None, "page %x.%x returned again / beyond the pass (dir %+d from %x.%x)" % (act[j] + (ps.dir,) + tuple(start))))
+            return out
+        if complete:
+            for k in exp[i:]:
+                if k in optional and i == 0 and not act: continue
+                out.append(("missed-page", k, "page %x.%x matches but was not returned before NOT_FOUND (pass dir %+d from %x.%x)" % (k + (ps.dir,) + tuple(start))))
+        return out
 
     def close_pass(self, complete):
         ps = self.cur
@@ -253,39 +288,27 @@ class Judge:
         dump = ps.snapshot
         m = self.matching(dump)
         keys = sorted(k for k in m if m[k])
-        if ps.dir > 0:
-            exp = [k for k in keys if k >= ps.start] + [k for k in keys if k < ps.start]
-        else:
-            exp = [k for k in reversed(keys) if k <= ps.start] + [k for k in reversed(keys) if k > ps.start]
+        exp = self.expected(keys, ps.start, ps.dir)
         act = []
         for k, _ in ps.hits:
             if not act or act[-1] != k: act.append(k)
         optional = set()
         if not ps.fresh and ps.start in exp:
             optional.add(ps.start)     # direction change on a page: whether it is reported again depends on the cursor
-        i = j = 0
-        while i < len(exp) and j < len(act):
-            if exp[i] == act[j]: i += 1; j += 1
-            elif exp[i] in optional and i == 0: i += 1
-            elif exp[i] not in act[j:]:
-                c = self.classify_miss(exp[i], ps, dump, m)
-                w = "page %x.%x matches but was not returned (pass dir %+d from %x.%x)" % (exp[i] + (ps.dir,) + tuple(ps.start))
-                if c: self.explained(c, w)
-                else: self.bad("missed-page: " + w)
-                i += 1
-            else:
-                self.bad("wrong-order: page %x.%x returned where %x.%x was due (pass dir %+d from %x.%x)" % (act[j] + exp[i] + (ps.dir,) + tuple(ps.start)))
-                return
-        if j < len(act):
-            self.bad("extra-page: page %x.%x returned again / beyond the pass (dir %+d from %x.%x)" % (act[j] + (ps.dir,) + tuple(ps.start)))
-            return
-        if complete:
-            for k in exp[i:]:
-                if k in optional and i == 0 and not act: continue
+        probs = self.compare(ps, ps.start, exp, act, complete, optional)
+        if probs and ps.alt_start is not None:
+            # C17-D7: a fresh forward pass after the direction was changed on a page P.3F7F starts at (P, 0) in the
+            # real code (0x3F7F taken for VBI_ANY_SUBNO); explained only if the pass is exact from THAT position
+            if not self.compare(ps, ps.alt_start, self.expected(keys, ps.alt_start, ps.dir), act, complete, set()):
+                self.explained("turn-on-3f7f", probs[0][2]); probs = []
+        for kind, k, w in probs:
+            if kind == "missed-page":
                 c = self.classify_miss(k, ps, dump, m)
-                w = "page %x.%x matches but was not returned before NOT_FOUND (pass dir %+d from %x.%x)" % (k + (ps.dir,) + tuple(ps.start))
                 if c: self.explained(c, w)
                 else: self.bad("missed-page: " + w)
+            else:
+                self.bad(kind + ": " + w)
+        if any(kind != "missed-page" for kind, k, w in probs): return
         # every occurrence of a page is reported by a forward pass
         if complete and ps.fresh and ps.dir > 0:
             for k in act:
@@ -295,12 +318,13 @@ class Judge:
                     if self.srch["rq"] is not None:
                         f, h = dump.pages()[k]
                         t = haystack(self.tab[h])[0]
-                        n, pos = 0, 0
+                        n, pos, lost = 0, 0, False
                         while True:
-                            q = quirk_find(self.srch["rq"], self.srch["casefold"], t, pos)
+                            q, l = ure_now(self.srch["rq"], self.srch["casefold"], t, pos)
+                            lost = lost or l
                             if q is None: break
                             n += 1; pos = q[1]
-                        if n == n_act: c = "ure-restart"
+                        if n == n_act and lost: c = "ure-accept-lost"
                     w = "page %x.%x: %d occurrences reported, text has %d" % (k + (n_act, len(m[k])))
                     if c: self.explained(c, w)
                     else: self.bad("occurrences: " + w)
@@ -346,16 +370,18 @@ class Judge:
         elif t[0] == "next":
             if self.srch is None: return
             d = 1 if int(t[1], 0) > 0 else -1
-            if o.startswith("ok assert"):
+            if o.startswith("ok assert") or o.startswith("ok unsupported"):
                 self.close_pass(False); return
             if self.cur is None:
                 start = self.srch["stop0"] if d > 0 else self.srch["stop1"]
                 self.cur = Pass(d, start, True); self.cur_start = start
+                if d > 0: self.cur.alt_start = self.srch.get("alt_stop0")
             elif d != self.cur.dir:
                 # "two frontiers": the page where the direction changes becomes the stop position of later passes
                 self.close_pass(False)
                 k0 = self.cur_start
-                self.srch["stop0"], self.srch["stop1"] = (k0[0], 0 if k0[1] == ANY else k0[1]), k0
+                self.srch["stop0"], self.srch["stop1"] = k0, k0
+                self.srch["alt_stop0"] = (k0[0], 0) if k0[1] == ANY else None
                 self.cur = Pass(d, k0, False)
             ps = self.cur
             if ps.snapshot is None and not self.dirty: ps.snapshot = self.dump
@@ -502,17 +528,27 @@ def gen_search_case(rng, mode, kind):
     npages = {"basic": rng.randint(1, 8), "hex": rng.randint(2, 8), "subpages": rng.randint(3, 12), "single": 1,
               "empty": 0, "update": rng.randint(2, 6)}[kind]
     c = []
+    hexsub = False
     if kind == "subpages":
-        base = pick_pgnos(rng, 2, False)
+        # several subpages of one or two page numbers; one time in three hex page numbers, whose sub-codes are
+        # arbitrary 13 bit values - 0x3F7F (= VBI_ANY_SUBNO) and 0x3F7E among them (finding D5, repaired)
+        hexsub = rng.random() < 0.34
+        if hexsub:
+            hexy = True
+            base = [rng.choice(range(1, 9)) * 0x100 + rng.choice([0x0a, 0x1f, 0xa2, 0xbc, 0xfe, 0x9a]) for _ in range(2)]
+        else:
+            base = pick_pgnos(rng, 2, False)
         pgnos = [rng.choice(base) for _ in range(npages)]
     else:
         pgnos = pick_pgnos(rng, npages, hexy)
-    if hexy and rng.random() < 0.75:
+    if hexy and (hexsub or rng.random() < 0.75):
         for m in sorted({(p >> 8) & 7 for p in pgnos}):
             c.append("feed " + S.mip_packets(m))
     puts = []
     for p in pgnos:
-        sc = pick_subcode(rng, p) if kind != "subpages" else rng.choice([0, 1, 2, 3, 4, 5, 0x10, 0x79, 0x100])
+        if kind != "subpages": sc = pick_subcode(rng, p)
+        elif hexsub: sc = rng.choice([0x3f7f, 0x3f7f, 0x3f7e, 0, 1, 2, 0x7f, 0x80, 0x100, 0x1234, 0x3f00])
+        else: sc = rng.choice([0, 1, 2, 3, 4, 5, 0x10, 0x79, 0x100])
         q = gen_page(rng, p, sc, needle, p_overlap=(0.04 if rng.random() < 0.3 else 0.0))
         puts.append(q); c.append(q)
         if rng.random() < 0.08: c.append("dump")
@@ -578,15 +614,19 @@ class C17(verif.Spec):
     harness = "search_harness"
     timeout_per_case = 8.0
     partial_note = ("the regular expression engine ure.c and the page formatter are parameters of the model (ure.c is judged by "
-                    "the oracle against Python re); walk_complete / search_exact hold on the current code only under the stated "
-                    "hypotheses (statistics cover the cached pages, start position inside the statistics window), with proved "
-                    "and replayed counterexamples otherwise")
+                    "the oracle against Python re, and for literals by the correspondence against the leftmost-occurrence matcher); "
+                    "search_exact is proved for the first forward call of a pass (SUCCESS = first matching page in pass order, "
+                    "NOT_FOUND iff nothing matches), not yet for continued / backward passes as one statement; every statement about "
+                    "reachable caches excludes C17-D2 explicitly (NoWrap: fewer than 65536 cached pages per page number)")
     assumptions = ["A1 page formatting (vbi_format_vt_page) is a function of the cached page (no Level 2.5 look-ups for the generated pages)",
                    "A2 no cache page is referenced by the application while searching, memory limit (1 GiB) not reached, page type never 'clock page'",
                    "A3 unicode_tolower is the ASCII mapping on the generated alphabet",
-                   "A4 start page number given to vbi_search_new lies in 0x100..0x8FF (otherwise cache_network_page_stat asserts)"]
-    open_statements = ["Zvbi.Search.search_exact_full (whole-pass exactness over repeated calls; false on the current code: findings C17-D1..D5)",
-                       "Zvbi.Search.walk_complete_full (every cached page visited once per sweep; false on the current code: C17-D2..D5)"]
+                   "A4 start page number given to vbi_search_new lies in 0x100..0x8FF (otherwise cache_network_page_stat asserts)",
+                   "A5 NoWrap: fewer than 65536 pages are cached under one page number (C17-D2, uint16_t n_subpages)"]
+    open_statements = ["Zvbi.Search.search_exact_full (whole-pass exactness over repeated calls; proved per call: search_exact_first_call, "
+                       "search_exact_first_success, search_exact_not_found, search_success_sound)",
+                       "Zvbi.Search.walk_complete_full (every cached page visited in every sweep after EVERY store history; proved with "
+                       "NoWrap as walk_complete_cached, fails at 65536 pages of one number: C17-D2)"]
     trusted_base = ["correspondence harness harness/search_harness.c and driver lean/Driver/Search.lean",
                     "Python re as the independent matcher; sender-side packet encoders lib/ttxenc.py",
                     "pre-pass: the displayed text of a transmitted page is asked from vbi_format_vt_page (formatter not modelled)"]
@@ -594,7 +634,6 @@ class C17(verif.Spec):
     def __init__(self):
         self._kind = {}
         self._hexe = None
-        self._mode = "quirk"
 
     # -- helpers -------------------------------------------------------------------------------------------
     def hexe(self):
@@ -607,19 +646,12 @@ class C17(verif.Spec):
         o, inc = verif.run_side([self.hexe()], cases, self.timeout_per_case)
         return o
 
-    def probe_mode(self):
-        """which literal matcher the current ure.c is: leftmost occurrence (`exact`) or the restart quirk (`quirk`)"""
-        c = S.resolve([[Put(0x100, 0, [(3, "xx aab yy")]), "search 0x100 0x3f7f 0 0 %s exact" % S.pat_hex("ab"), "next 1"]], self.run_h)
-        o = self.run_h(c).get(0, [])
-        self._mode = "exact" if (len(o) >= 3 and o[2].startswith("ok 1 ")) else "quirk"
-        return self._mode
-
     def remember(self, case, kind):
         self._kind[hashlib.md5("\n".join(case).encode()).hexdigest()] = kind
 
     # -- Spec interface ------------------------------------------------------------------------------------
     def gen_cases(self, rng, tier):
-        mode = self.probe_mode()
+        mode = "exact"      # historical token of the `search` op (the model has one literal matcher since 8b7ac93)
         n = 500 if tier == "quick" else 4000
         mix = [("basic", 0.40), ("hex", 0.15), ("subpages", 0.12), ("single", 0.05), ("empty", 0.04), ("update", 0.16), ("malformed", 0.08)]
         raw, kinds = [], []
@@ -655,29 +687,37 @@ class C17(verif.Spec):
         return re.sub(r"[0-9a-f]+\.[0-9a-f]+|\d+", "N", what)[:120]
 
     def extra_checks(self, ctx):
-        """regular expressions: real code + oracle (no model side)"""
-        if ctx["replay"]: return []
+        """regular expressions: real code (harness --regex) + oracle, no model side (ure.c is a parameter of the model;
+        in the correspondence both sides answer `ok unsupported` to `next` after a regular expression search)"""
         rng = ctx["rng"]
-        raw = [gen_regex_case(rng) for _ in range(80 if ctx["tier"] == "quick" else 600)]
-        # replays written for the decoder harness (dec format: `search <pgno-hex> <subno-hex> <cf> <re> <pattern>`),
-        # e.g. the regular expressions that crashed / leaked in ure_compile: run them here against a small cache
-        for f, lines in verif.corpus_cases(self.prop):
-            c = [Put(0x100, 0, [(3, "alpha a|b (c) [ok]")]), Put(0x801, 1, [(5, "beta 1.5 100%")]), "dump"]
-            n = 0
-            for l in lines:
-                t = l.split()
-                if len(t) == 6 and t[0] == "search":
-                    try:
-                        c.append("search 0x%x 0x%x %d %d %s regex" % (int(t[1], 16), int(t[2], 16), int(t[3]) != 0, int(t[4]) != 0, t[5]))
-                        n += 1
-                    except ValueError:
-                        pass
-                elif len(t) == 2 and t[0] == "next" and n:
-                    c.append(l)
-            if n:
-                raw.append(c + ["dump", "endsearch"])
+        raw = []
+        if not ctx["replay"]:
+            raw = [gen_regex_case(rng) for _ in range(80 if ctx["tier"] == "quick" else 600)]
+            # replays written for the decoder harness (dec format: `search <pgno-hex> <subno-hex> <cf> <re> <pattern>`),
+            # e.g. the regular expressions that crashed / leaked in ure_compile: run them here against a small cache
+            for f, lines in verif.corpus_cases(self.prop):
+                c = [Put(0x100, 0, [(3, "alpha a|b (c) [ok]")]), Put(0x801, 1, [(5, "beta 1.5 100%")]), "dump"]
+                n = 0
+                for l in lines:
+                    t = l.split()
+                    if len(t) == 6 and t[0] == "search":
+                        try:
+                            c.append("search 0x%x 0x%x %d %d %s regex" % (int(t[1], 16), int(t[2], 16), int(t[3]) != 0, int(t[4]) != 0, t[5]))
+                            n += 1
+                        except ValueError:
+                            pass
+                    elif len(t) == 2 and t[0] == "next" and n:
+                        c.append(l)
+                if n:
+                    raw.append(c + ["dump", "endsearch"])
         cases = S.resolve(raw, self.run_h)
-        outs, inc = verif.run_side(ctx["hcmd"], cases, self.timeout_per_case)
+        # corpus / replay cases in this harness' own format that contain a regular expression search
+        def is_re(l):
+            t = l.split()
+            return len(t) == 7 and t[0] == "search" and t[4] not in ("0", "0x0")
+        cases += [c for c in ctx["cases"] if any(is_re(l) for l in c)]
+        if not cases: return []
+        outs, inc = verif.run_side(ctx["hcmd"] + ["--regex"], cases, self.timeout_per_case)
         res = []
         bad = {x["case"] for x in inc}
         for x in inc:
